@@ -405,6 +405,13 @@ class ComposedNode(ConfigNode):
             if fix:
                 child._propagate_implicit_values()
 
+    def _propagate_priority(self):
+        # a priority given to an already-built container applies to everything below it,
+        # exactly as when the container is built from plain data with a "priority" argument
+        for child in self._children.values():
+            child._priority = self._priority
+            child._propagate_priority()
+
     @classmethod
     def _is_composed(cls):
         return True
